@@ -436,6 +436,57 @@ def oracle_nested(ds):
     c = n.copy()
     if type(c) is not MultiDict or list(c.items()) != flat:
         return "NestedMultiDict.copy() is not the flat MultiDict"
+    # the nested view is live: a later change of a part is seen, and reading never changes the parts
+    parts = [MultiDict(list(d)) for d in ds]
+    n2 = NestedMultiDict(*parts)
+    before = [list(p_.items()) for p_ in parts]
+    nested_probe = [list(n2.items()), len(n2), [n2.getall(k) for k in PROBE], n2.mixed(), n2.dict_of_lists()]
+    if [list(p_.items()) for p_ in parts] != before:
+        return "reading a NestedMultiDict changed one of its parts"
+    if parts:
+        parts[-1].add("zz", "9")
+        if list(n2.items()) != flat + [("zz", "9")] or n2.getall("zz") != ["9"] or len(n2) != len(flat) + 1:
+            return "NestedMultiDict does not show a pair added to one of its parts afterwards"
+        c.add("yy", "1")
+        if "yy" in n or "yy" in n2:
+            return "NestedMultiDict.copy() is not independent"
+    return None
+
+
+def oracle_construct(pairs):
+    """Constructors copy their argument (except view_list, which aliases by contract); reads leave a dict unchanged."""
+    from webob.multidict import MultiDict
+    from webob.headers import ResponseHeaders
+    for cls in (MultiDict, ResponseHeaders):
+        src = list(pairs)
+        d = cls(src)
+        d.add("k", "v")
+        if src != list(pairs):
+            return "%s(list) shares the caller's list" % cls.__name__
+        d2 = cls(d)
+        d2.add("k2", "v2")
+        if "k2" in d:
+            return "%s(other) shares the other's items" % cls.__name__
+        lst = list(pairs)
+        v = cls.view_list(lst)
+        v.add("w", "1")
+        if lst[-1] != ("w", "1"):
+            return "%s.view_list does not alias the list" % cls.__name__
+        e = cls(list(pairs))
+        snap = list(e.items())
+        for _ in range(2):
+            _ = (list(e.keys()), list(e.values()), e.mixed(), e.dict_of_lists(), [e.getall(k) for k in PROBE],
+                 [e.get(k) for k in PROBE], len(e), e.copy())
+        if list(e.items()) != snap:
+            return "read-only calls changed a %s" % cls.__name__
+        m1, m2 = e.mixed(), e.mixed()
+        if m1 != m2 or (m1 is m2 and m1):
+            return "%s.mixed() is not a fresh, repeatable result" % cls.__name__
+        for k, val in list(m1.items()):
+            if isinstance(val, list):
+                val.append("tamper")
+        if e.mixed() != m2 or list(e.items()) != snap:
+            return "mutating the result of mixed() changed the %s" % cls.__name__
     return None
 
 
@@ -547,6 +598,12 @@ def run(ctx):
         if msg:
             ctx.fail("nested-concat", msg, {"class": "nested", "parts": ds}, True)
     ctx.oracle_count("nested", m // 4, m // 4)
+    for _ in range(ctx.scale(300, 3000)):
+        pairs = rand_pairs(r3, 4)
+        msg = oracle_construct(pairs)
+        if msg:
+            ctx.fail("construct-or-read-mutates", msg, {"class": "construct", "pairs": pairs}, True)
+    ctx.oracle_count("construct", ctx.scale(300, 3000), ctx.scale(300, 3000))
     msg = oracle_novars()
     if msg:
         ctx.fail("novars", msg, {"class": "novars"}, True)
@@ -577,6 +634,8 @@ def replay(ctx, path):
         msg = oracle_resp([tuple(p) for p in case["init"]], [fix(o) for o in case["ops"]])
     elif cls == "nested":
         msg = oracle_nested([[tuple(p) for p in d] for d in case["parts"]])
+    elif cls == "construct":
+        msg = oracle_construct([tuple(p_) for p_ in case["pairs"]])
     elif cls == "novars":
         msg = oracle_novars()
     else:
